@@ -539,10 +539,17 @@ Fixpoint decode_prog (timed : bool) (p : list (list Z)) : list op :=
   end.
 
 Definition opt1 (m : option nat) : Z := match m with Some _ => 1 | None => 0 end.
+(* modelling assumption pinned to the source: the two reader counters of the inner lr_guarded are unbounded here
+   (CowProofs: ctr = number of registered threads, I_cnt), the code's are std::atomic<int>; they agree as long as
+   fewer than 2^31 threads are registered in one counter.  A narrower type wraps with that many concurrent readers
+   (e.g. 256 for a byte) and the commit stops waiting for them: the theorems need a counter that cannot wrap for the
+   number of threads.  The driver prints numeric_limits<>::max() of the counters' value type in the same line. *)
+Definition COUNTER_MAX : Z := 2147483647.
 Definition final (s : sys glob loc) : list line :=
   let g := gl s in
   [[-2; content (heap g (cvid (cleft g))); content (heap g (cvid (cright g))); b2z (rl g); b2z (cl g); lc g; rc g;
-    opt1 (omtx g); opt1 (imtx g); created g; destroyed g; Z.of_nat (faults g)]].
+    opt1 (omtx g); opt1 (imtx g); created g; destroyed g; Z.of_nat (faults g)];
+   [-2; COUNTER_MAX; COUNTER_MAX]].
 
 Definition cfg_nth (cfg : list Z) (i : nat) : Z := nth i cfg 0.
 Definition init_of (cfg : list Z) (progs : list (list (list Z))) : sys glob loc :=
